@@ -10,7 +10,7 @@ ROUTES = ["Molecule(m)", "Structure(m)", "CartesianGeometry(m)", "Connectivity(m
           "concatenate", "Atom.evolve", "Bond.evolve", "ConformerEnsemble(m)",
           "ConformerEnsemble(e)", "ens pickle", "ens deepcopy", "Molecule(e[i])"]
 C_ROUTES = {"pickle", "deepcopy", "ens pickle", "ens deepcopy", "concatenate"}   # C code (pickle, numpy sum of charges): field values concrete there
-MUTS = ["atom label", "atom attrib entry", "atom attrib nested", "atom element", "bond type", "bond attrib entry", "coord cell", "charge cell",
+MUTS = ["atom attrib in tuple", "bond attrib in tuple", "mol attrib in tuple", "atom label", "atom attrib entry", "atom attrib nested", "atom element", "bond type", "bond attrib entry", "coord cell", "charge cell",
         "mol attrib entry", "mol attrib nested", "add atom", "del atom", "add hydrogens", "mol charge"]
 
 
@@ -58,10 +58,10 @@ def wired(o):
 
 def mk_mol(charge, mult, label, aval, qsel):
     q = [[0.5, -0.25, 0.125], [0.0, 0.0, 0.0], [-1.5, 2.0, 0.75]][qsel]
-    m = Molecule([Atom("C", label=label, isotope=13, formal_charge=-1, attrib={"x": aval, "l": [1, 2]}), Atom("O", label="o", stereo=10),
+    m = Molecule([Atom("C", label=label, isotope=13, formal_charge=-1, attrib={"x": aval, "l": [1, 2], "t": ("LP", [0.5, {"d": 1}])}), Atom("O", label="o", stereo=10),
                   Atom("H", label="h")], name="src", charge=charge, mult=mult,
-                 coords=[[0.0, 0.1, 0.2], [1.2, 0.0, 0.0], [-0.6, 0.9, 0.0]], atomic_charges=q, attrib={"k": aval, "lst": [1, [2]]})
-    m.connect(0, 1, btype=2, label="b01", attrib={"bo": aval})
+                 coords=[[0.0, 0.1, 0.2], [1.2, 0.0, 0.0], [-0.6, 0.9, 0.0]], atomic_charges=q, attrib={"k": aval, "lst": [1, [2]], "tup": (1, [2])})
+    m.connect(0, 1, btype=2, label="b01", attrib={"bo": aval, "bt": ([1],)})
     m.connect(0, 2, stereo=11)
     return m
 
@@ -82,7 +82,20 @@ def sub(s, keys):
 def mutate(o, mut):
     """apply one mutation through the public API; returns False if it is not applicable to this object"""
     name = MUTS[mut]
-    if name == "atom label":
+    if name == "atom attrib in tuple":
+        if "t" not in o.atoms[0].attrib:
+            return False
+        o.atoms[0].attrib["t"][1].append(7)
+        o.atoms[0].attrib["t"][1][1]["d"] = 2
+    elif name == "bond attrib in tuple":
+        if not hasattr(o, "bonds") or not o.bonds or "bt" not in o.bonds[0].attrib:
+            return False
+        o.bonds[0].attrib["bt"][0].append(7)
+    elif name == "mol attrib in tuple":
+        if "tup" not in o.attrib:
+            return False
+        o.attrib["tup"][1].append(7)
+    elif name == "atom label":
         o.atoms[0].label = "CHANGED"
     elif name == "atom attrib entry":
         o.atoms[0].attrib["x"] = "changed"
@@ -179,6 +192,7 @@ def _copy(route, mut, mutate_copy, charge, mult, label, aval, qsel):
             return False
         a.attrib["x"] = "changed"
         a.attrib["l"].append(5)
+        a.attrib["t"][1].append(5)
         a.label = "q"
         return snap(src) == before
     elif r == "Bond.evolve":
@@ -186,6 +200,7 @@ def _copy(route, mut, mutate_copy, charge, mult, label, aval, qsel):
         if (b.label, b.btype, b.stereo, b.f_order, deep(b.attrib)) != (src.bonds[0].label, src.bonds[0].btype, src.bonds[0].stereo, src.bonds[0].f_order, deep(src.bonds[0].attrib)):
             return False
         b.attrib["bo"] = "changed"
+        b.attrib["bt"][0].append(5)
         b.btype = 3
         return snap(src) == before
     elif r == "ConformerEnsemble(m)":
